@@ -513,6 +513,44 @@ def r11q(ctx, rep, rule="R11q"):
     rep.floor(rule, "constructions of parse::Error::Incomplete", n, 6)
 
 
+def r11r(ctx, rep, rule="R11r"):
+    """sibling scanners agree on what ends a numeral"""
+    from .. import shapes
+    facts = ctx["facts"]
+    rep.rule(rule, "one atom, one token: scan_number and scan_dot both scan what begins like a number (12ab / .5g). When a character "
+             "turns up that no numeral contains but an identifier may, the token goes on as a symbol — in both scanners: inside "
+             "the scanning loop of each there is an assignment of TokenType::Symbol on the true edge of is_subsequent_identifier. "
+             "A scanner that ends the token there instead splits one written atom into two data (.5g read as 0.5 and g; "
+             "(define .dx 5) had four operands).")
+    for nm in ("scan_number", "scan_dot"):
+        f = need(rep, rule, facts, "marwood::lex::" + nm)
+        if f is None:
+            continue
+        body = set()
+        for src, h in f.back_edges():
+            body |= (f.reach_from(h) & f.reach_back(src)) | {h, src}
+        hits = []
+        for bb, j, st in f.stmts():
+            rv = st["rv"]
+            sym = False
+            if rv["k"] == "agg" and (rv.get("adt") or "").endswith("lex::TokenType") and rv.get("variant") == "Symbol":
+                sym = True
+            if rv["k"] == "use":
+                c = op_const(rv["a"])
+                if c is not None and "TokenType::Symbol" in (c.get("text") or ""):
+                    sym = True
+            if not sym or bb not in body:
+                continue
+            gs = shapes.guard_shapes(f, bb, None, 3)
+            if any(re.search(r"is_subsequent_identifier\(.*\)=T$", g) for g in gs):
+                hits.append(st["loc"])
+        key = "%s|%s|goes-on-as-symbol" % (rule, nm)
+        (rep.ok if hits else rep.fail)(
+            rule, key, "%s lets a numeral that meets an identifier character go on as a symbol" % nm if hits else
+            "%s never turns the token into a symbol on meeting an identifier character inside its loop: the token ends there and "
+            "the rest of the atom is read as a second datum" % nm, hits or [f.span])
+
+
 def run(ctx, rep):
     r11a(ctx, rep)
     r11b(ctx, rep)
@@ -532,6 +570,7 @@ def run(ctx, rep):
     r11m(ctx, rep)
     r11n(ctx, rep)
     r11q(ctx, rep)
+    r11r(ctx, rep)
     from . import units
     units.r15a(ctx, rep, rule="R11d", scope=("marwood::lex::", "marwood::parse::", "marwood::syntax::"))
     rep.rules["R11d"] = "span units: " + rep.rules["R11d"]
